@@ -64,7 +64,7 @@ class C14:
         return _strategy()
 
     def examples(self, tier):
-        return 600 if tier == "quick" else 10000
+        return 600 if tier == "quick" else 80000
 
     def enumerate(self, tier):
         return []
